@@ -244,7 +244,7 @@ def correspondence(ctx):
                 real[a - lo:b - lo] = model
                 continue
             try:
-                with _limit(ctx.scale(120, 900)):
+                with _limit(ctx.scale(30, 120)):
                     got = [f(j) for j in range(a, b)]
                 raw = np.array(got)
                 if raw.dtype.kind not in 'iu' and not (raw.dtype.kind == 'f' and (raw == np.floor(raw)).all()):
